@@ -1,7 +1,116 @@
-"""C09 -- bounded run-time contracts on generated CAMx files (rtc/camx.py, reference codec rtc/refcodec.py)."""
-from .common import *   # noqa
+"""C09 -- binary files conform to the published layout.
 
-CONTRACTS = []
+P: Fortran record utilities (camxfiles/FortranFileUtil.py): character/word codec inverse, record markers of writeline,
+record stepping of RecordFile.  B: generated CAMx files through an independent reference codec (rtc/camx.py, rtc/refcodec.py)."""
+import z3
+from .common import *   # noqa
+from pyvc.arrays import SymChar
+from pyvc.exec import Obj, Opaque, BoundModel
+from pyvc.sym import PyExc
+
+FU = 'camxfiles/FortranFileUtil.py'
+
+
+class Asc2IntC(Contract):
+    """Asc2Int maps every character c to the integer whose big-endian bytes are (c, ' ', ' ', ' ')"""
+    prop = 'C09'
+    target = FU + '::Asc2Int'
+
+    def inputs(self, ctx, I):
+        self.codes = [ctx.fresh('c%d' % i) for i in range(3)]
+        return dict(spcname=[SymChar(c) for c in self.codes])
+
+    def requires(self, inp):
+        return And(*[And(ge(c, 0), le(c, 255)) for c in self.codes])
+
+    def ensures(self, inp, res, I):
+        out = [('one-word-per-character', isinstance(res, list) and len(res) == 3)]
+        if isinstance(res, list) and len(res) == 3:
+            for i, (r, c) in enumerate(zip(res, self.codes)):
+                out.append(('word[%d]=c*2^24+0x202020' % i, eq(r, add(mul(c, 256 ** 3), 32 * 65536 + 32 * 256 + 32))))
+        return out
+
+
+class Int2AscC(Contract):
+    """Int2Asc inverts Asc2Int on every character code 0..255"""
+    prop = 'C09'
+    target = FU + '::Int2Asc'
+
+    def inputs(self, ctx, I):
+        self.codes = [ctx.fresh('c%d' % i) for i in range(3)]
+        return dict(mspec=[add(mul(c, 256 ** 3), 32 * 65536 + 32 * 256 + 32) for c in self.codes])
+
+    def requires(self, inp):
+        return And(*[And(ge(c, 0), le(c, 255)) for c in self.codes])
+
+    def ensures(self, inp, res, I):
+        from pyvc.arrays import SymStr
+        if not isinstance(res, SymStr) or len(res.chars) != 3:
+            return [('returns-3-characters', False)]
+        return [('char[%d]-recovered' % i, eq(ch.code, c)) for i, (ch, c) in enumerate(zip(res.chars, self.codes))]
+
+
+class WriteLine(Contract):
+    """writeline(d, fmt): leading and trailing marker equal struct.calcsize(fmt); payload order kept"""
+    prop = 'C09'
+    target = FU + '::writeline'
+
+    def __init__(self, fmt, n):
+        self.fmt, self.n = fmt, n
+        self.name = 'writeline[%s]' % fmt
+
+    def inputs(self, ctx, I):
+        self.vals = [ctx.fresh('v%d' % i) for i in range(self.n)]
+        return dict(d=list(self.vals), fmt=self.fmt)
+
+    def ensures(self, inp, res, I):
+        import struct
+        rec = I.ctx.ghost.get('struct.pack')
+        if not rec:
+            return [('packs-one-record', False)]
+        fmt, args = rec[-1]
+        size = struct.calcsize(self.fmt)
+        return [('record-format', fmt == '>i' + self.fmt + 'i'),
+                ('leading-marker=payload-size', eq(args[0], size)), ('trailing-marker=payload-size', eq(args[-1], size)),
+                ('payload-in-order', len(args) == self.n + 2 and all(a is v for a, v in zip(args[1:-1], self.vals))),
+                ('input-list-not-modified', len(inp['d']) == self.n)]
+
+
+def rf_obj(ctx, I):
+    """RecordFile over an abstract file: infile.tell/seek/read are modelled by a ghost cursor"""
+    f = Obj(None, {}, tag='file')
+    f.ghost['pos'] = ctx.fresh('pos')
+    length = ctx.fresh('length')
+    rf = self_obj(I, FU, 'RecordFile', dict(infile=f, length=length, record_start=ctx.fresh('record_start'),
+                                            record_size=ctx.fresh('record_size'), format_prefix='>', byteswap=False))
+    return rf, f
+
+
+class RecordNext(Contract):
+    """RecordFile.next: the next record starts at record_start + record_size + 8 (two 4-byte markers);
+    returns False without moving record_start when that is at or beyond the end of the file"""
+    prop = 'C09'
+    target = FU + '::RecordFile.next'
+
+    def inputs(self, ctx, I):
+        rf, f = rf_obj(ctx, I)
+        self.start0, self.size0 = rf.attrs['record_start'], rf.attrs['record_size']
+        return dict(self=rf)
+
+    def requires(self, inp):
+        a = inp['self'].attrs
+        return And(ge(a['record_start'], 0), ge(a['record_size'], 0), ge(a['length'], 0))
+
+    def ensures(self, inp, res, I):
+        a = inp['self'].attrs
+        nxt = add(add(self.start0, self.size0), 8)
+        moved = lt(nxt, a['length'])
+        return [('returns-whether-moved', eq(sym.truthy(res) if sym.is_sym(res) else res, moved)),
+                ('moved=>starts-after-both-markers', Implies(moved, eq(a['record_start'], nxt))),
+                ('at-end=>record-start-kept', Implies(Not(moved), eq(a['record_start'], self.start0)))]
+
+
+CONTRACTS = [Asc2IntC(), Int2AscC(), WriteLine('ifif', 4), WriteLine('iiii', 4), WriteLine('10i', 10), RecordNext()]
 
 
 def bounded(tier, seed):
